@@ -866,3 +866,86 @@ def monitor_batch(ctx, pid, n, salt=11, name=None, force=None, also=()):
         if i < 2:
             sl.sample({"spec": d, "metaepochs": run.steps, "demes": run.order, "events": len(run.ev)})
     return sl
+
+
+# ---------------------------------------------------------------- minimize() slices
+def minimize_slice(ctx, pid, n, salt=41):
+    """budget sweeps of `pyhms.minimize` with a recording objective: nfev == calls <= maxfun (C03),
+    fun == min of everything returned and budget-prefix replay (C04), nit == maxiter (C05), x in box (C01)"""
+    from pyhms import minimize
+
+    from .common import Slice
+
+    sl = Slice(f"minimize()-budget-sweep-{pid}")
+    rng = ctx.rng(salt)
+    for i in range(n):
+        d = int(rng.integers(2, 4))
+        lo = rng.uniform(-5, 0, d)
+        hi = lo + rng.uniform(2, 9, d)
+        bounds = [(float(a), float(b)) for a, b in zip(lo, hi)]
+        shift = rng.uniform(lo, hi)
+        seed = int(rng.integers(1, 10**6))
+
+        def make():
+            calls = []
+
+            def f(x, calls=calls):
+                v = float(np.sum((np.asarray(x) - shift) ** 2))
+                calls.append((tuple(float(t) for t in x), v))
+                return v
+
+            return f, calls
+
+        n1 = int(rng.choice([1, 2, 7, 15, 16, 17, 25, 40, 90, 150, rng.integers(1, 400)]))
+        n2 = n1 + int(rng.integers(1, 200))
+        res = []
+        for N in (n1, n2):
+            f, calls = make()
+            try:
+                r = minimize(f, bounds, maxfun=N, seed=seed)
+            except Exception as e:
+                sl.violations.append({"signature": f"{pid}/minimize-crashed", "detail": f"minimize(maxfun={N}, seed={seed}) raised {type(e).__name__}: {e}", "replay": {"bounds": bounds, "maxfun": N, "seed": seed}})
+                res = None
+                break
+            res.append((N, r, calls))
+        if res is None:
+            continue
+        sl.cases += 1
+        sl.nontrivial.add((seed, n1, n2))
+        sl.count("budget<=20" if n1 <= 20 else "budget>20")
+
+        def bad(sig, detail, N):
+            sl.violations.append({"signature": sig, "detail": detail, "replay": {"bounds": bounds, "shift": shift.tolist(), "maxfun": N, "seed": seed}})
+
+        for N, r, calls in res:
+            if pid == "C03":
+                if len(calls) > N:
+                    bad("C03/maxfun-exceeded", f"minimize(maxfun={N}) invoked fun {len(calls)} times", N)
+                if r.nfev != len(calls):
+                    bad("C03/nfev-wrong", f"minimize(maxfun={N}).nfev={r.nfev} but fun was called {len(calls)} times", N)
+            if pid == "C04" and calls:
+                m = min(v for _, v in calls)
+                if r.fun != m:
+                    bad("C04/minimize-fun-not-min", f"minimize(maxfun={N}).fun={r.fun} but fun returned {m} at some call", N)
+            if pid == "C01":
+                if not all(a <= t <= b for t, (a, b) in zip(r.x, bounds)) or any(not all(a <= t <= b for t, (a, b) in zip(x, bounds)) for x, _ in calls):
+                    bad("C01/minimize-outside-box", f"minimize(maxfun={N}) evaluated or returned a point outside the box", N)
+            if pid == "C02" and calls:
+                if r.fun != float(np.sum((np.asarray(r.x) - shift) ** 2)):
+                    bad("C02/minimize-fun-not-f-of-x", f"minimize(maxfun={N}): fun={r.fun} is not f(x)", N)
+        if pid == "C04":
+            (N1, r1, c1), (N2, r2, c2) = res
+            if c2[: len(c1)] != c1:
+                k = next(j for j in range(min(len(c1), len(c2))) if c1[j] != c2[j]) if len(c2) >= len(c1) else len(c2)
+                bad("C04/budget-not-prefix", f"seed {seed}: the calls of maxfun={N1} are not a prefix of the calls of maxfun={N2} (first difference at call {k+1})", N2)
+            if r2.fun > r1.fun:
+                bad("C04/larger-budget-worse", f"seed {seed}: maxfun={N2} gives fun={r2.fun}, worse than maxfun={N1} with {r1.fun}", N2)
+        if pid == "C05":
+            it = int(rng.integers(1, 5))
+            f, calls = make()
+            r = minimize(f, bounds, maxiter=it, seed=seed)
+            if r.nit != it:
+                bad("C05/minimize-nit", f"minimize(maxiter={it}).nit={r.nit}", it)
+        if i < 2:
+            sl.sample({"bounds": bounds, "seed": seed, "maxfun": [n1, n2], "nfev": [res[0][1].nfev, res[1][1].nfev]})
+    return sl
